@@ -3478,7 +3478,6 @@ orc_compiler_mmx_register_rules (OrcTarget *target)
   orc_rule_register (rule_set, "convsuslw", mmx_rule_convsuslw, NULL);
   orc_rule_register (rule_set, "mulslq", mmx_rule_mulslq, NULL);
   orc_rule_register (rule_set, "mulhsl", mmx_rule_mulhsl, NULL);
-  orc_rule_register (rule_set, "convsssql", mmx_rule_convsssql_mmx41, NULL);
   REG(cmpeqq);
 #endif
 
@@ -3487,6 +3486,14 @@ orc_compiler_mmx_register_rules (OrcTarget *target)
       ORC_TARGET_MMX_SSE4_2);
 
   REG(cmpgtsq);
+
+#ifndef MMX
+  /* SSE 4.1 + SSE 4.2: convsssql uses blendvpd (4.1) and pcmpgtq (4.2) */
+  rule_set = orc_rule_set_new (orc_opcode_set_get("sys"), target,
+      ORC_TARGET_MMX_SSE4_1 | ORC_TARGET_MMX_SSE4_2);
+
+  orc_rule_register (rule_set, "convsssql", mmx_rule_convsssql_mmx41, NULL);
+#endif
 
   /* SSE 4a -- no rules */
 }
